@@ -102,8 +102,11 @@ def mk_factor(m, rng, kind, R, D):
 COND_CLASSES = ["full", "diag", "identity", "identitydiag"]
 
 
-def mk_cond(m, rng, cls, R, Dy, Dx, give="Sigma"):
-    """linear-Gaussian conditional of the given class; identity classes need Dy == Dx"""
+def mk_cond(m, rng, cls, R, Dy, Dx, give=None):
+    """linear-Gaussian conditional of the given class; identity classes need Dy == Dx.
+    give: which covariance arguments the constructor receives (Sigma | Lambda | all); drawn when None"""
+    if give is None:
+        give = ("Sigma", "Lambda", "all", "Sigma")[int(rng.integers(0, 4))]
     diag = cls in ("diag", "identitydiag")
     S = gen.pd_batch(rng, R, Dy, diag=diag)
     L = np.linalg.inv(S)
